@@ -30,6 +30,9 @@ Proof.
   assert (has_rec s d = true) by (apply has_rec_In; exists p; exact Hin). congruence.
 Qed.
 
+Lemma ds_trash_recs : forall l s, recs (ds_trash l s) = recs s.
+Proof. intros l s. unfold ds_trash. destruct (existsb _ l); reflexivity. Qed.
+
 Lemma urecs_step : forall s o, urecs s -> urecs (exec s o).
 Proof.
   intros s o U. unfold exec. destruct o; simpl.
@@ -74,9 +77,19 @@ Proof.
       apply remove_runs_datastore in E. destruct E as [_ [_ [E3 _]]].
       apply (urecs_same (forget_refs (run_members s rs) s)); [exact E3 | apply urecs_forget; exact U].
   - apply (urecs_same s); [reflexivity | exact U].
-  - apply (urecs_same s); [reflexivity | exact U].
+  - apply (urecs_same s); [apply ds_trash_recs | exact U].
   - apply urecs_empty_trash. exact U.
   - unfold reg_remove. destruct (existsb _ _); simpl; [exact U |]. apply (urecs_same s); [reflexivity | exact U].
+  - (* Trash1 *) destruct (artifact_present s d); simpl; [apply (urecs_same s); [apply ds_trash_recs | exact U] | exact U].
+  - (* Ingest *) destruct (ctype s r) as [[] |]; simpl; try exact U.
+    destruct (d1 =? d2) eqn:E0; simpl; [exact U |]. destruct (negb _); simpl; [exact U |].
+    destruct (has_rec s d1 || memN d1 (loc s) || (has_rec s d2 || memN d2 (loc s))) eqn:E; simpl; [apply (urecs_same s); [reflexivity | exact U] |].
+    apply orb_false_iff in E. destruct E as [E1 E2]. apply orb_false_iff in E1, E2. destruct E1 as [A1 _]. destruct E2 as [A2 _].
+    apply N.eqb_neq in E0. unfold urecs. simpl. constructor; [| constructor; [| exact U]].
+    + simpl. intros [F | F]; [exact (E0 (eq_sym F)) |]. apply in_map_iff in F. destruct F as [[d' p] [F1 F2]]. simpl in F1. subst d'.
+      assert (has_rec s d1 = true) by (apply has_rec_In; exists p; exact F2). congruence.
+    + intro F. apply in_map_iff in F. destruct F as [[d' p] [F1 F2]]. simpl in F1. subst d'.
+      assert (has_rec s d2 = true) by (apply has_rec_In; exists p; exact F2). congruence.
 Qed.
 
 Lemma urecs_fold : forall h s, urecs s -> urecs (fold_left exec h s).
